@@ -72,8 +72,8 @@ Proof.
     split; [|exact (Hls _ Hin)]. specialize (Hlf _ Hin). cbn in Hlf. destruct h; [contradiction|discriminate].
 Qed.
 
-Lemma name_of_ok_f f b : name_of b <> [] /\ hname_ok f (name_of b).
-Proof. destruct f; cbn [hname_ok]; [apply name_of_ok|]. split; [apply name_of_ok|apply name_plain]. Qed.
+Lemma name_of_ok_f f b : name_of b <> [] /\ hname_ok f (name_of b) /\ plain (name_of b) = true.
+Proof. split; [apply name_of_ok|]. split; [|apply name_plain]. destruct f; cbn [hname_ok]; [apply name_of_ok|apply name_plain]. Qed.
 
 Section FMT.
 Variable f : nfmt.
@@ -82,7 +82,7 @@ Variable f : nfmt.
 Definition key_rt (kind : N) (k : key) : Prop := kunmarshal kind (kmarshal k) = Some k.
 Definition entry_ok (kind : N) (e : entry key val) : Prop :=
   key_rt kind (ekey _ _ e) /\ body_ok f (kmarshal (ekey _ _ e)) /\ body_ok f (eval _ _ e).
-Definition name_ok (h : name) : Prop := h <> [] /\ hname_ok f h.
+Definition name_ok (h : name) : Prop := h <> [] /\ hname_ok f h /\ plain h = true.
 
 Inductive sto (s : store) (kind : N) : name -> knode -> Prop :=
 | sto_node h l0 (es : list (entry key val)) :
@@ -150,10 +150,10 @@ Proof.
   assert (Hsmall : Forall (fun l : option name => match l with Some h0 => hname_ok f h0 | None => True end) (link_name l0 :: map link_name (map (elink _ _) es))).
   { constructor.
     - inversion H0 as [|h2 c2 Hc2]; subst; [exact I|]. cbn [link_name]. inversion Hc2; subst.
-      match goal with Hx : name_ok h2 |- _ => exact (proj2 Hx) end.
+      match goal with Hx : name_ok h2 |- _ => exact (proj1 (proj2 Hx)) end.
     - clear -Hes. induction Hes as [|e r He _ IHr]; [constructor|]. cbn [map]. constructor; [|exact IHr].
       inversion He as [|h2 c2 Hc2]; subst; [exact I|]. cbn [link_name]. inversion Hc2; subst.
-      match goal with Hx : name_ok h2 |- _ => exact (proj2 Hx) end. }
+      match goal with Hx : name_ok h2 |- _ => exact (proj1 (proj2 Hx)) end. }
   rewrite decode_encode_node.
   - rewrite <- (map_map (ekey _ _) kmarshal), unmarshal_keys_rt.
     + cbn [length]. rewrite !map_length, !Nat.eqb_refl. cbn [negb orb map]. cbv beta.
